@@ -1,6 +1,7 @@
 import Pl.Summary
 import Pl.Run2Spec
 import Pl.IsMerge
+import Pl.Adjacent
 
 /-! # C14 — property theorems (statements only; proofs live in the family libraries) -/
 
@@ -66,6 +67,27 @@ theorem run2_summary :
     b = times.getD ((plan.headD ⟨.emerge, 0, []⟩).commit) 0 ∧ c = n ∧
     (∀ t ts, commitTimes times plan = t :: ts → e = ts.foldl max t) :=
   @Pl.run2_summary
+end
+
+section
+open Pl
+
+/-- the adjacency premise as an executable check, evaluated on every plan of the real planner for a graph without a
+redundant parent edge: soundness -/
+theorem adjOK_sound :
+    ∀ (plan : List Action) (h : adjOK plan = true) (A B : List Action) (x : Action) (c : Nat)
+    (hp : plan = A ++ x :: B) (hx : IsC c x),
+    (∀ B1 y B2, B = B1 ++ y :: B2 → IsC c y → ∀ a ∈ B1, HB a ∨ IsC c a) ∧
+    (∀ A1 y A2, A = A1 ++ y :: A2 → IsC c y → ∀ a ∈ A2, HB a ∨ IsC c a) ∧
+    (∀ a A', A = a :: A' → ¬ IsC c a) :=
+  @Pl.adjOK_sound
+
+/-- on a checked plan the merge flag is true exactly when the commit is replayed somewhere else as well -/
+theorem isMerge_of_adjOK :
+    ∀ (plan : List Action) (h : adjOK plan = true) (A B : List Action) (x : Action) (c : Nat)
+    (hp : plan = A ++ x :: B) (hx : IsC c x),
+    isMerge plan A.length c = true ↔ ∃ y ∈ A ++ B, IsC c y :=
+  @Pl.isMerge_of_adjOK
 end
 
 end Props.C14
